@@ -154,7 +154,7 @@ func (m *Machine) invokeMethod(recv Iface, name string, args ...Value) Value {
 	if recv.T == nil {
 		m.goPanic("nil interface method call " + name)
 	}
-	fn := m.prog.LookupMethod(recv.T, nil, name)
+	fn := m.lookupMethod(recv.T, name)
 	if fn == nil {
 		m.unsupported("method %s not found on %s", name, recv.T)
 	}
@@ -208,6 +208,14 @@ func registerBinary(m *Machine) {
 		var elemT types.Type
 		var sl Slice
 		isSlice := false
+		if p, isPtr := data.V.(Ptr); isPtr {
+			// pointer to a slice: decode into the slice's elements
+			if pt, ok := data.T.Underlying().(*types.Pointer); ok {
+				if st, ok := pt.Elem().Underlying().(*types.Slice); ok {
+					data = Iface{T: st, V: m.load(p)}
+				}
+			}
+		}
 		switch dv := data.V.(type) {
 		case Ptr:
 			elemT = data.T.Underlying().(*types.Pointer).Elem()
@@ -250,7 +258,42 @@ func registerBinary(m *Machine) {
 
 func registerFmt(m *Machine) {
 	m.natives["fmt.Errorf"] = func(m *Machine, a []Value) Value {
-		msg := m.sprintf(a[0].(Str), a[1])
+		format := a[0].(Str)
+		msg := m.trySprintf(format, a[1])
+		// %w keeps the wrapped error reachable through Unwrap (real fmt.wrapError type)
+		if format.B == nil {
+			args := m.argList(a[1])
+			ai := 0
+			f := format.S
+			for i := 0; i+1 < len(f); i++ {
+				if f[i] != '%' {
+					continue
+				}
+				j := i + 1
+				for j < len(f) && (f[j] == '+' || f[j] == '-' || f[j] == '#' || f[j] == ' ' || f[j] == '.' || (f[j] >= '0' && f[j] <= '9')) {
+					j++
+				}
+				if j >= len(f) {
+					break
+				}
+				if f[j] == '%' {
+					i = j
+					continue
+				}
+				if f[j] == 'w' && ai < len(args) && args[ai].T != nil {
+					if fp := m.prog.ImportedPackage("fmt"); fp != nil {
+						if tn := fp.Type("wrapError"); tn != nil {
+							l := m.newLoc(tn.Type())
+							l.Kids[0].V = msg
+							l.Kids[1].V = args[ai]
+							return Iface{T: types.NewPointer(tn.Type()), V: Ptr{L: l, I: -1}}
+						}
+					}
+				}
+				ai++
+				i = j
+			}
+		}
 		return m.callFn(m.stdFunc("errors", "New"), []Value{msg}, nil)
 	}
 	m.natives["fmt.Sprintf"] = func(m *Machine, a []Value) Value {
@@ -272,6 +315,22 @@ func registerFmt(m *Machine) {
 	m.natives["fmt.Fprintln"] = func(m *Machine, a []Value) Value {
 		return m.writeStr(a[0].(Iface), m.sprint(a[1], true))
 	}
+}
+
+// trySprintf formats an error message; message text that cannot be modelled
+// (symbolic operands under %q, %v of structs, ...) degrades to the format
+// string itself, since error text is never part of a property.
+func (m *Machine) trySprintf(format Str, argv Value) (res Str) {
+	defer func() {
+		if r := recover(); r != nil {
+			if _, ok := r.(*unsupportedErr); ok {
+				res = Str{S: format.S}
+				return
+			}
+			panic(r)
+		}
+	}()
+	return m.sprintf(format, argv)
 }
 
 func (m *Machine) writeStr(w Iface, s Str) Value {
